@@ -114,7 +114,7 @@ ProbeNames ==
    "issue_case_variant_ok", "issue_prefix_ok", "mint_ibc_rej", "ibc_edit_ok", "ibc_transfer_ok", "ibc_burn_ok",
    "ibc_handover_ok", "ibc_stranger_rej", "mint_bad_token_id_rej", "mint_sentinel_token_id_rej",
    "mint_len101_token_ok", "mint_len102_token_rej", "mint_uri256_ok", "mint_uri257_rej", "edit_uri257_rej",
-   "transfer_uri257_ok", "mint_badjson_rej", "edit_badjson_rej", "transfer_badjson_rej",
+   "transfer_uri257_rej", "mint_badjson_rej", "edit_badjson_rej", "transfer_badjson_rej",
    "mint_sentinel_name_ok", "mint_to_module_ok", "transfer_to_module_ok", "handover_to_module_ok",
    "module_sender_rej", "module_owned_token_rej", "mint_prefix_token_ok", "mint_case_token_ok",
    "mint_token_named_as_class_ok", "op_prefix_token_rej", "op_case_token_rej", "op_prefix_class_rej",
@@ -149,7 +149,7 @@ ProbeEx(c) ==
     [] c = "mint_uri256_ok" -> Acc("MintNFT") /\ ev.u = URI256
     [] c = "mint_uri257_rej" -> Rej("MintNFT") /\ PreHasCls /\ ev.u = URI257
     [] c = "edit_uri257_rej" -> Rej("EditNFT") /\ PreHasTok /\ PreOwner = ev.who /\ ~PreCls.updateR /\ ev.u = URI257
-    [] c = "transfer_uri257_ok" -> Acc("TransferNFT") /\ ev.u = URI257
+    [] c = "transfer_uri257_rej" -> ev.name = "TransferNFT" /\ ~ev.ok /\ ev.u = URI257
     [] c = "mint_badjson_rej" -> Rej("MintNFT") /\ PreHasCls /\ ev.d = BADJSON
     [] c = "edit_badjson_rej" -> Rej("EditNFT") /\ PreHasTok /\ PreOwner = ev.who /\ ~PreCls.updateR /\ ev.d = BADJSON
     [] c = "transfer_badjson_rej" -> Rej("TransferNFT") /\ PreHasTok /\ PreOwner = ev.who /\ ~PreCls.updateR /\ ev.d = BADJSON
